@@ -14,6 +14,7 @@ import (
 	"github.com/elastos/Elastos.ELA/common"
 	"github.com/elastos/Elastos.ELA/core/types"
 	"github.com/elastos/Elastos.ELA/core/types/interfaces"
+	"github.com/elastos/Elastos.ELA/mempool"
 
 	"verif/sim/core"
 )
@@ -162,6 +163,9 @@ func (s *sim) start(fresh bool) error {
 		return err
 	}
 	s.node = n
+	if pm := s.c.Plan.Knob("poolmax", 0); pm > 0 {
+		mempool.VerifSetMaxSize(n.pool, uint64(pm))
+	}
 	if fresh {
 		g, err := n.chain.GetBlockByHeight(0)
 		if err != nil {
@@ -203,7 +207,7 @@ func (s *sim) step(st *Step) {
 		}
 		parent := s.pickParent(st.Block)
 		mb := s.buildBlock(parent, st.Block)
-		c.Logf("built #%d h=%d on #%d txs=%d valid=%v %s", mb.idx, mb.height, parent.idx, len(mb.blk.Transactions)-1, mb.valid, mb.why)
+		c.Logf("built #%d h=%d on #%d txs=%d valid=%v %s %q", mb.idx, mb.height, parent.idx, len(mb.blk.Transactions)-1, mb.valid, mb.why, mb.txLabel)
 		if !mb.valid {
 			c.Fault("byzantine-block:" + classOf(mb.why))
 		}
@@ -257,6 +261,9 @@ func classOf(why string) string {
 
 // propOfReason attributes an invalidity class to the property that forbids it.
 func propOfReason(why string) string {
+	if strings.HasPrefix(why, "unsigned-spend-from-script-address") {
+		return "C05"
+	}
 	switch classOf(why) {
 	case "outputs-exceed-inputs", "negative-output", "fee-too-small":
 		return "C01"
